@@ -460,6 +460,11 @@ class Bond:
         lin_zero_interp = InterpTypes.LINEAR_ZERO_RATES
         us_street = YTMCalcType.US_STREET
 
+        # work on a copy: the key rates are shifted in place below and the caller's
+        # list must come back unchanged
+        if rates is not None:
+            rates = np.array(rates, dtype=float)
+
         # initialize an empty list for the key rate durations
         key_rate_durations = []
 
